@@ -53,12 +53,12 @@ CHECKS = {
    "Exhaustive in the drop dimension per sequence, exploratory over sequences. Non-droppable packets are always delivered."),
  "C09": ("exploration",
    "stateful model-based testing: ModelServer (three-valued, from the statement) + metamorphic twin runs + bounded-exhaustive enumeration of short histories",
-   "Generated histories over 17 operation kinds (peer messages incl. malformed argument lists, application calls incl. stale/forged request ids) are executed against a real ServerSession; ModelServer predicts the prescribed observations per step and follows the implementation where the statement is silent; refused calls are re-checked by a twin run without them. All sequences of length <= 4 (quick) / <= 5 (thorough) over a 12-letter alphabet are enumerated from four starting states.",
+   "Generated histories over 17 operation kinds (peer messages incl. malformed argument lists, application calls incl. stale/forged request ids) are executed against a real ServerSession; ModelServer predicts the prescribed observations per step and follows the implementation where the statement is silent; refused calls are re-checked by a twin run without them. All sequences of length <= 4 (quick) / <= 5 (thorough) over a 13-letter alphabet are enumerated from four starting states.",
    "DESIGN.md §4 C09",
    "The model is written from the statement, not the code; don't-cares are listed in DESIGN.md. An Err from handle_input ends a history (callers close the connection)."),
  "C10": ("exploration",
    "stateful model-based testing: ModelClient + metamorphic twin runs + bounded-exhaustive enumeration of short histories",
-   "Generated histories over 20 operation kinds (application calls and server messages with outstanding / answered / unknown transaction ids, status codes, media on active or other streams) run against a real ClientSession; ModelClient judges each clause of the statement; operations that must not change anything are removed in a twin run whose other observations must be identical. All sequences of length <= 4 / <= 5 over a 13-letter alphabet from four starting states are enumerated.",
+   "Generated histories over 20 operation kinds (application calls and server messages with outstanding / answered / unknown transaction ids, status codes, media on active or other streams) run against a real ClientSession; ModelClient judges each clause of the statement; operations that must not change anything are removed in a twin run whose other observations must be identical. All sequences of length <= 4 / <= 5 over a 14-letter alphabet from four starting states are enumerated.",
    "DESIGN.md §4 C10",
    "Model from the statement; don't-cares listed in DESIGN.md. An Err from handle_input ends a history; generation is shaped so that most histories stay alive."),
  "C11": ("exploration",
